@@ -303,6 +303,7 @@ type CompileOpts struct {
 	SwKeys   []Tok
 	SwVals   []Tok
 	Lint     bool
+	FontID   string // CLI default font id (-f)
 }
 
 // AVSpec is an autovar config entry whose strings may be atoms.
@@ -390,7 +391,7 @@ func (w *Worker) engineCompile(c *interp.Ctx, src string, o CompileOpts) *Compil
 	if o.PathAtom != nil {
 		path = o.PathAtom.Val
 	}
-	res := w.E.Call(c, fn, src, o.Optimize, o.LM, path, interp.MkSlice(avs...), interp.MkSlice(ks...), interp.MkSlice(vs...), o.Lint)
+	res := w.E.Call(c, fn, src, o.Optimize, o.LM, path, interp.MkSlice(avs...), interp.MkSlice(ks...), interp.MkSlice(vs...), o.Lint, o.FontID)
 	t := interp.Tuple(res)
 	cr := &CompileResult{Out: t[0]}
 	if !interp.IsNilIface(t[1]) {
@@ -414,7 +415,7 @@ func strOf(v interp.Value) string {
 }
 
 func (w *Worker) nativeCompile(src string, o CompileOpts, values map[int]string) (*CompileResult, error) {
-	req := NativeReq{Op: "compile", Src: src, Optimize: o.Optimize, LM: o.LM, Path: o.Path, Lint: o.Lint, FontPath: "font_config.json"}
+	req := NativeReq{Op: "compile", Src: src, Optimize: o.Optimize, LM: o.LM, Path: o.Path, Lint: o.Lint, FontPath: "/nonexistent/font_config.json", FontID: o.FontID}
 	conc := func(t Tok) string {
 		if t.A != nil {
 			return values[t.A.ID]
@@ -491,6 +492,7 @@ func (w *Worker) RunCase(cs *Case, rep *Report) {
 			cs.Setup(x)
 		}
 		c.EnableTokenSymbolisation(cs.Prog.Atoms.Placeholders(), placeholderRe, lineMap)
+		c.TypePlaceholders = cs.Prog.Atoms.TypePlaceholders()
 		for _, v := range cs.Variants {
 			p := cs.Prog
 			if v.Prog != nil {
@@ -512,7 +514,7 @@ func (w *Worker) RunCase(cs *Case, rep *Report) {
 			if r.Outcome == interp.PathTargetPanic {
 				rep.note(fmt.Sprintf("case %s: target panic: %s", cs.Name, r.Msg))
 			}
-			if (r.Outcome == interp.PathInconclusive || r.Outcome == interp.PathTargetPanic) && !stopped {
+			if (r.Outcome == interp.PathInconclusive || r.Outcome == interp.PathTargetPanic || r.Outcome == interp.PathFuel) && !stopped {
 				// Completion of a path the engine could not finish: one model
 				// of its path condition is run on the native build with the
 				// same oracle. This does not cover the path (it stays counted
